@@ -68,6 +68,13 @@ def generate(tier, rng):
                 if len(keysets) > 40 and not thorough:
                     keysets = rng.sample(keysets, 40)
                 yield {'suite': NAME, 'op': 'specbind', 'method': m, 'keysets': keysets, 'tag': 'specbind'}
+                # the same function exposed a second time under another name with another context designation, and
+                # served first: what `f` publishes and binds must not depend on it
+                if not view and not excluded and n >= 1 and (thorough or rng.random() < 0.5):
+                    others = [None] + [p['n'] for p in sig]
+                    twin = rng.choice([o for o in others if o != ctx])
+                    yield {'suite': NAME, 'op': 'specbind', 'method': m, 'keysets': keysets, 'tag': 'specbind-twin',
+                           'twin': {'ctx': twin}}
 
 
 _OBJS = {}
@@ -75,7 +82,7 @@ _OBJS = {}
 
 def build(c):
     m = c['method']
-    key = json.dumps(m, sort_keys=True)
+    key = json.dumps([m, c.get('twin')], sort_keys=True)
     if key in _OBJS:
         return _OBJS[key]
     excluded = m.get('excluded') or []
@@ -91,6 +98,8 @@ def build(c):
     else:
         method = pjrpc.server.Method(obj, 'f', m.get('ctx'))
     d.registry.add_methods(method)
+    if c.get('twin'):
+        d.registry.add_methods(pjrpc.server.Method(obj, 'g', c['twin']['ctx']))
     extractor = PydanticSchemaExtractor(exclude_param=pred)
     oas = openapi.OpenAPI(info=openapi.Info(title='t', version='1'), schema_extractor=extractor)
     orpc = openrpc.OpenRPC(info=openrpc.Info(title='t', version='1'), schema_extractor=extractor)
@@ -106,27 +115,34 @@ def resolve(doc, node):
 
 
 def params_of_openapi(doc):
-    op = next(iter(doc['paths'].values()))['post']
+    op = next(v for k, v in doc['paths'].items() if k.endswith('#f'))['post']
     schema = resolve(doc, op['requestBody']['content']['application/json']['schema'])
     params = resolve(doc, schema['properties']['params'])
     return sorted(params.get('properties', {})), sorted(params.get('required', []))
 
 
 def params_of_openrpc(doc):
-    ps = doc['methods'][0]['params']
+    ps = next(m for m in doc['methods'] if m['name'] == 'f')['params']
     return sorted(p['name'] for p in ps), sorted(p['name'] for p in ps if p.get('required'))
 
 
 def run_impl(c):
     d, method, oas, orpc, fkey = build(c)
     out = {}
+    S.CURRENT['bodies'] = {fkey: {'k': 'echo', '_name': 'f', '_post': None}}
+    mm = [method]
+    if c.get('twin'):
+        # the twin is documented and served first
+        mm = [d.registry['g'], method]
+        for params in ({}, {k: 1 for k in c['keysets'][-1]}):
+            d.dispatch(json.dumps({'jsonrpc': '2.0', 'id': 0, 'method': 'g', 'params': params}), context=S.CTX)
     try:
-        doc = oas.schema(path='/', methods_map={'': [method]})
+        doc = oas.schema(path='/', methods_map={'': mm})
         out['documented'], out['required'] = params_of_openapi(json.loads(json.dumps(doc, cls=pjrpc.server.specs.JSONEncoder)))
     except Exception as e:  # noqa
         out['openapi_error'] = core.exc_name(e)
     try:
-        doc = orpc.schema(path='/', methods_map={'': [method]})
+        doc = orpc.schema(path='/', methods_map={'': mm})
         out['rpc_documented'], out['rpc_required'] = params_of_openrpc(json.loads(json.dumps(doc, cls=pjrpc.server.specs.JSONEncoder)))
     except Exception as e:  # noqa
         out['openrpc_error'] = core.exc_name(e)
